@@ -90,6 +90,8 @@ def replay(p):
         return (not H.close(got, G, TOL)), f'all_gellmann_matrix({d}) differs from the documented basis'
     if what in ('m2v_expand', 'roundtrip_m'):
         Am = _c(p, 'A')
+        if p.get('real_dtype'):
+            Am = np.ascontiguousarray(Am.real, dtype=np.float64)       # a real-dtype (not merely real-valued) matrix
         v = numqi.gellmann.matrix_to_gellmann_basis(Am)
         if what == 'm2v_expand':
             rec = np.einsum('i,ijk->jk', v, G)
@@ -190,6 +192,20 @@ def run(chk):
                     chk.add(f'basis_to_matrix(matrix_to_basis(A)) == A [d={d}][{r},{c}]', ctx.facts, H.eq_sc(rec2[r, c], Am[r, c]),
                             key='gellmann round trip matrix->vector->matrix', kind=soft, timeout_s=None if soft == 'forall' else 120,
                             replay=('gm', lambda m, Am=Am, d=d: payload(m, {'A': Am}, what='roundtrip_m', d=d)))
+            # 2b. the same for a matrix of real dtype (float64 array, in general not symmetric): its antisymmetric part needs imaginary coefficients
+            if d <= 4:
+                Ar = H.re_array(f'ar{d}', (d, d))
+                vr = gm.matrix_to_gellmann_basis(Ar)
+                vrp = A.plain(vr)
+                recr = gm.gellmann_basis_to_matrix(vr)
+                for r in range(d):
+                    for c in range(d):
+                        acc = SC(ir.ZERO)
+                        for i in range(d * d):
+                            acc = acc + S.as_sc(vrp[i]) * S.as_sc(T[i][r, c])
+                        chk.add(f'sum_i v_i G_i == A for A of real dtype [d={d}][{r},{c}]', ctx.facts, ir.band(H.eq_sc(acc, Ar[r, c]), H.eq_sc(recr[r, c], Ar[r, c])),
+                                key='matrix_to_gellmann_basis coefficients (real dtype)',
+                                replay=('gm', lambda m, Ar=Ar, d=d: payload(m, {'A': Ar}, what='m2v_expand', d=d, real_dtype=True)))
             w = H.cx_array(f'w{d}', d * d)
             M = gm.gellmann_basis_to_matrix(w)
             w2 = gm.matrix_to_gellmann_basis(M)
